@@ -180,10 +180,11 @@ class Unspecified(Exception):
 
 
 class Ref:
-    __slots__ = ("rx", "empty", "nonrep", "wlo", "whi", "caps", "kind")
+    __slots__ = ("rx", "empty", "nonrep", "wlo", "whi", "caps", "kind", "unspec_rep")
 
     def __init__(self, rx, empty=False, nonrep=False, wlo=0, whi=0, caps=(), kind="other"):
         self.rx, self.empty, self.nonrep, self.wlo, self.whi, self.caps, self.kind = rx, empty, nonrep, wlo, whi, tuple(caps), kind
+        self.unspec_rep = False
 
     def g(self):
         return "(?:%s)" % self.rx
@@ -204,7 +205,11 @@ def _wmul(a, n):
 
 def ref(e, leaf_text):
     """leaf_text(src) -> (regex text of the real leaf object, width lo, width hi, capture names)"""
+    _UNSPEC_REP[0] = False
     r = _ref(e, leaf_text)
+    # C09 fixes repeatability of *direct* anchor / positive-lookaround instances (refused) and of operands that
+    # contain none (accepted); a repeating quantifier over an operand that merely contains one is left open
+    r.unspec_rep = _UNSPEC_REP[0]
     names = [c for c in r.caps if c is not None]
     if len(names) != len(set(names)):
         raise Unspecified("the expression spells the same group name twice (invalid in re by construction)")
@@ -212,6 +217,13 @@ def ref(e, leaf_text):
 
 
 SYM_MARK = "\x00SYM%d\x00"
+_UNSPEC_REP = [False]
+
+
+def contains_nonrep(e):
+    if e[0] in NONREP:
+        return True
+    return any(contains_nonrep(x) for x in subexprs(e))
 
 
 def _ref(e, leaf_text):
@@ -308,6 +320,8 @@ def _ref(e, leaf_text):
             raise Expected("InvalidArgumentValueException")
         if (m is None or m > 1) and r.nonrep:
             raise Expected("CannotBeRepeatedException")
+        if (m is None or m > 1) and not r.empty and contains_nonrep(e[1]):
+            _UNSPEC_REP[0] = True
         if r.empty or m == 0:
             return Ref("", empty=True)
         if n == 1 and m == 1:
